@@ -194,6 +194,8 @@ class SimText(_SimBase):
         self._decode()
         end = self._buf.find("\n", self._pos)
         end = len(self._buf) if end < 0 else end + 1
+        if size is not None and size >= 0:
+            end = min(end, self._pos + size)
         out = self._buf[self._pos: end]
         self._pos = end
         return out
@@ -254,6 +256,8 @@ class SimBytes(_SimBase):
         self.faults.on_read()
         end = self._buf.find(b"\n", self._pos)
         end = len(self._buf) if end < 0 else end + 1
+        if size is not None and size >= 0:
+            end = min(end, self._pos + size)
         out = bytes(self._buf[self._pos: end])
         self._pos = end
         return out
